@@ -198,7 +198,7 @@ func executeInproc(c Case, keepTrace bool) Result {
 	// the client writes every frame into the pipe; the server reads them one by one
 	pipe := &simPipe{frags: c.Frags}
 	for i, m := range c.Msgs {
-		pipe.data = append(pipe.data, frame(m.body(i+1))...)
+		pipe.data = append(pipe.data, frameStyled(m.body(i+1), c.Hdr+i*boolInt(c.Hdr > 0))...)
 		pipe.ends = append(pipe.ends, len(pipe.data))
 	}
 	res.Bytes = len(pipe.data)
@@ -279,6 +279,13 @@ func executeInproc(c Case, keepTrace bool) Result {
 		res.Nontrivial = res.Handled > 10
 	}
 	return res
+}
+
+func boolInt(b bool) int {
+	if b {
+		return 1
+	}
+	return 0
 }
 
 func rawOrEmpty(r *json.RawMessage) []byte {
